@@ -53,6 +53,17 @@ fn main() {
             let f = args.get(2).cloned().unwrap_or_else(|| usage());
             props::replay(&f)
         }
+        "mkfixtures" => {
+            let out = args.get(2).cloned().unwrap_or_else(|| usage());
+            let commit = args.get(3).cloned().unwrap_or_else(|| "unknown".into());
+            match props::compat::mkfixtures(std::path::Path::new(&out), &commit) {
+                Ok(()) => 0,
+                Err(e) => {
+                    eprintln!("mkfixtures: {e:#}");
+                    1
+                }
+            }
+        }
         "list" => {
             for p in props::ALL {
                 println!("{p}");
